@@ -381,6 +381,14 @@ def c05(prop, tier, seed):
         e3_validate(R, "MapTrace.tla", "MapTrace_%s%s.cfg" % (suf, "_q" if quick else ""), tr, "MapTrace_" + suf, timeout=1500)
         lines = open(tr).read().splitlines()
         R.samples.append({"trace_excerpt": [json.loads(x) for x in lines[300:302]]})
+    # ... and over an adversarial key set: a cluster as long as the probe limit (128 keys in one home slot) with keys homed at its far end
+    tr = os.path.join(d, "map_cluster.ndjson")
+    env = {"VP_DTOR": "1", "VP_UPDATE": "1", "VP_DUP": "1", "VP_TRACE_CLUSTER": "1"}
+    info = run_tracer(R, exe, ["--trace", tr, seed, 140, 1500 if quick else 6000], env, "MapTrace_cluster")
+    if info is not None:
+        if info.get("outstanding", 0) != 0:
+            R.mismatch("MapTrace_cluster:leak", tr, "allocator ledger: %s blocks outstanding after the map was freed" % info["outstanding"])
+        e3_validate(R, "MapTrace.tla", "MapTrace_duk%s.cfg" % ("_q" if quick else ""), tr, "MapTrace_cluster", timeout=1500)
     vplib.cleanup(d)
     R.rule = ("programs = edge sequences of the dumped TLC graph of MapAbs.tla (3 keys x 3 values, flag combinations) replayed "
               "with 5 key sets: plain, all keys in one home slot, and three sets homed at slots 254/255/0 so that clusters wrap "
@@ -388,7 +396,8 @@ def c05(prop, tier, seed):
               "random walks; iteration order is a library choice followed by observation; non-trivial = >= 2 keys present and "
               "an entry removed during an iteration. Plus recorded traces of random put/get/contains/remove/clear, callback iteration removing "
               "a residue class of keys and iterator sweeps with removal over 500 (quick) / 1400 (thorough) keys - the table is rehashed 1-3 times - "
-              "validated line by line by TLC against MapTrace.tla" % D)
+              "validated line by line by TLC against MapTrace.tla; one more trace uses an adversarial key set (128 keys in one home slot: a cluster as "
+              "long as the probe limit, plus keys homed at its far end and in its middle)" % D)
     R.assumptions = ["no mutation behind a live iterator except through it (precondition)", "ASan/UBSan + allocator ledger attached",
                      "adversarial keys are searched with a copy of the public hash function (coverage aid only)"]
     return R.finish()
